@@ -1,2 +1,180 @@
-(** C18 - placeholder while the pipeline is brought up *)
-From Cij Require Import StaticModel.
+(** C18 - run-static reports a consistent static EoS and elasticity table in every mode.
+    Theorems about the model theories/StaticModel.v of /repo/cij/cli/static.py at the instance R
+    (lemmas in theories/Static.v).  The model is tied to the source by the correspondence run of
+    tools/props/c18.py (every printed column of `cij run-static` vs [s_run] on the float instance). *)
+From Coq Require Import Reals ZArith List Lia Lra.
+From Coquelicot Require Import Coquelicot.
+From Cij Require Import Ops ROps StaticModel Static.
+Import ListNotations.
+Local Open Scope R_scope.
+
+(** 1a. mode none: V and F are the input columns, P is the spline oracle *)
+Theorem columns_none_mode : forall (vols ens spl : list R) ratio pmin dp ntv,
+  s_eos 0 vols ens spl ratio pmin dp ntv = (vols, ens, spl).
+Proof. exact columns_none_mode_l. Qed.
+
+(** 1b. mode volume: V is the uniform grid, F_k is the fit at V_k, P_k is numpy's gradient quotient *)
+Theorem columns_volume_mode : forall (vols ens spl : list R) ratio pmin dp ntv,
+  (2 <= ntv)%nat ->
+  let '(V, Fc, P) := s_eos 1 vols ens spl ratio pmin dp ntv in
+  V = s_linspace (s_min vols / ratio) (s_max vols * ratio) ntv /\
+  length V = ntv /\ length Fc = ntv /\ length P = ntv /\
+  (forall k, (k < ntv)%nat -> s_nth k Fc = s_fit2 vols ens (s_nth k V)) /\
+  (forall k, (0 < k)%nat -> (k + 1 < ntv)%nat ->
+     s_nth k P = - ((s_nth (k + 1) Fc - s_nth (k - 1) Fc) / 2) / ((s_nth (k + 1) V - s_nth (k - 1) V) / 2)) /\
+  s_nth 0 P = - (s_nth 1 Fc - s_nth 0 Fc) / (s_nth 1 V - s_nth 0 V) /\
+  s_nth (ntv - 1) P = - (s_nth (ntv - 1) Fc - s_nth (ntv - 2) Fc) / (s_nth (ntv - 1) V - s_nth (ntv - 2) V).
+Proof. exact columns_volume_mode_l. Qed.
+
+(** 1c. numpy's interior gradient quotient is the exact derivative of a quadratic on every uniform grid *)
+Theorem grad_exact_quadratic :
+  forall (a b : R) (n : nat) (c0 c1 c2 : R) (k : nat),
+    a <> b -> (0 < k)%nat -> (k + 1 < n)%nat ->
+    let xs := s_linspace a b n in
+    let q := fun x => c0 + c1 * x + c2 * (x * x) in
+    s_nth k (s_pgrid (map q xs) xs) = - (c1 + 2 * c2 * s_nth k xs).
+Proof. exact grad_exact_quadratic_l. Qed.
+
+(** 1d. the closed form [s_pexact] (used by the tie in mode none) is minus the volume derivative of the fit *)
+Theorem pexact_is_derivative : forall (vols ys : list R) (v : R),
+  0 < s_nth 0 vols -> 0 < v ->
+  is_derive (fun w => s_fit2 vols ys w) v (- s_pexact vols ys v).
+Proof. exact s_pexact_is_derivative_l. Qed.
+
+(** 2. mode pressure, full strength: V = v2p(v_grid), F = v2p(f_grid), row j at p_min + j delta_p GPa *)
+Theorem columns_pressure_mode :
+  forall (vg fg pg : list R) (pmin dp : R) (ntv : nat),
+    (2 <= ntv)%nat ->
+    s_mode_pressure vg fg pg pmin dp ntv =
+      (s_v2p1d vg pg (s_pwant pmin dp ntv), s_v2p1d fg pg (s_pwant pmin dp ntv), s_pwant pmin dp ntv) /\
+    forall j, (j < ntv)%nat ->
+      s_to_gpa (s_nth j (snd (s_mode_pressure vg fg pg pmin dp ntv))) = pmin + INR j * dp.
+Proof. exact columns_pressure_mode_l. Qed.
+Theorem columns_pressure_mode_inputs :
+  forall (vols ens spl : list R) (ratio pmin dp : R) (ntv : nat),
+    (2 <= ntv)%nat ->
+    let vg := s_vgrid vols ratio ntv in
+    let fg := s_fgrid vols ens vg in
+    let pg := s_pgrid fg vg in
+    let '(V, Fc, P) := s_eos 2 vols ens spl ratio pmin dp ntv in
+    V = s_v2p1d vg pg P /\ Fc = s_v2p1d fg pg P /\ length P = ntv /\
+    forall j, (j < ntv)%nat -> s_to_gpa (s_nth j P) = pmin + INR j * dp.
+Proof. exact columns_pressure_mode_inputs_l. Qed.
+(** history (defect D9, repaired in /repo ed06662): with `v2p1d(v_array, ...)` feeding F the statement is false *)
+Theorem columns_pressure_mode_refuted_before_fix : ~ columns_pressure_mode_stmt_old.
+Proof. exact columns_pressure_mode_refuted_before_fix_l. Qed.
+
+(** 3. the fit: normal equations, residual orthogonality, exactness on quadratic data *)
+Theorem fit2_normal_equations : forall (xs ys : list R),
+  let m := s_mom xs ys in
+  s_gram_det m <> 0 ->
+  let '(a0, a1, a2) := s_coeffs xs ys in
+  m0 m * a0 + m1 m * a1 + m2 m * a2 = t0 m /\
+  m1 m * a0 + m2 m * a1 + m3 m * a2 = t1 m /\
+  m2 m * a0 + m3 m * a1 + m4 m * a2 = t2 m.
+Proof. exact s_coeffs_normal_l. Qed.
+Theorem fit2_residual_moments : forall (xs ys : list R) (a0 a1 a2 : R),
+  length xs = length ys ->
+  let m := s_mom xs ys in
+  let res := zipw (fun x y => s_poly (a0, a1, a2) x - y) xs ys in
+  sum res = m0 m * a0 + m1 m * a1 + m2 m * a2 - t0 m /\
+  sum (zipw (fun x r => x * r) xs res) = m1 m * a0 + m2 m * a1 + m3 m * a2 - t1 m /\
+  sum (zipw (fun x r => x * x * r) xs res) = m2 m * a0 + m3 m * a1 + m4 m * a2 - t2 m.
+Proof. exact s_normal_residual_l. Qed.
+Theorem fit2_exact : forall (vols : list R) (c0 c1 c2 : R) (v : R),
+  let v0 := s_nth 0 vols in
+  let ys := map (fun w => s_poly (c0, c1, c2) (s_strain v0 w)) vols in
+  s_gram_det (s_mom (s_strains v0 vols) ys) <> 0 ->
+  s_fit2 vols ys v = s_poly (c0, c1, c2) (s_strain v0 v).
+Proof. exact fit2_exact_l. Qed.
+(** non-vacuity: three distinct positive volumes satisfy the determinant hypothesis *)
+Theorem fit2_exact_three : forall (v0 v1 v2 c0 c1 c2 v : R),
+  0 < v0 -> 0 < v1 -> 0 < v2 -> v0 <> v1 -> v0 <> v2 -> v1 <> v2 ->
+  let vols := [v0; v1; v2] in
+  let ys := map (fun w => s_poly (c0, c1, c2) (s_strain v0 w)) vols in
+  s_fit2 vols ys v = s_poly (c0, c1, c2) (s_strain v0 v).
+Proof. exact fit2_exact_three_l. Qed.
+
+(** full strength: any table with at least three pairwise distinct positive volumes (no determinant hypothesis) *)
+Theorem gram_det_positive : forall (xs ys : list R) a b c,
+  In a xs -> In b xs -> In c xs -> a <> b -> a <> c -> b <> c -> 0 < s_gram_det (s_mom xs ys).
+Proof. exact s_gram_det_pos. Qed.
+Theorem fit2_exact_distinct : forall (vols : list R) (c0 c1 c2 v a b c : R),
+  let v0 := s_nth 0 vols in
+  let ys := map (fun w => s_poly (c0, c1, c2) (s_strain v0 w)) vols in
+  0 < v0 -> In a vols -> In b vols -> In c vols -> 0 < a -> 0 < b -> 0 < c ->
+  a <> b -> a <> c -> b <> c ->
+  s_fit2 vols ys v = s_poly (c0, c1, c2) (s_strain v0 v).
+Proof. exact fit2_exact_distinct_l. Qed.
+
+(** 4. rows: density (cell-mass override), moduli = fit at the row's volume, fill oracle, VRH, velocities *)
+Theorem row_with_table : forall (tv : list R) keys cols (mfile : R) cm fill (v f p : R),
+  let mass := match cm with Some m => m | None => mfile end in
+  let rho := s_to_gcm3 (mass / v) in
+  let fitted := map (fun col => s_fit2 tv col v) cols in
+  let c := match fill with Some vals => s_cmat s_all_keys vals | None => s_cmat keys fitted end in
+  s_row (Some (tv, keys, cols, mfile)) cm fill v f p =
+    [s_to_ang3 v; s_to_ev f; s_to_gpa p; rho] ++ fitted ++ s_vrh_row c (s_inv c) rho.
+Proof. exact s_row_table_l. Qed.
+Theorem row_without_table : forall (cm : option R) (v f p : R),
+  s_row None cm None v f p =
+    [s_to_ang3 v; s_to_ev f; s_to_gpa p] ++ match cm with Some m => [s_to_gcm3 (m / v)] | None => [] end.
+Proof. exact s_row_notable_l. Qed.
+Theorem rows_of_table : forall tab cm (vs fs ps : list R) k,
+  (k < length vs)%nat -> length fs = length vs -> length ps = length vs ->
+  nth k (s_zip3 tab cm None vs fs ps) [] = s_row tab cm None (s_nth k vs) (s_nth k fs) (s_nth k ps).
+Proof. exact s_zip3_nth_l. Qed.
+Theorem vrh_rows : forall (c s : list (list R)) (rho : R),
+  0 < rho ->
+  let KV := (s_el c 1 1 + s_el c 2 2 + s_el c 3 3 + 2 * (s_el c 1 2 + s_el c 2 3 + s_el c 1 3)) / 9 in
+  let KR := 1 / (s_el s 1 1 + s_el s 2 2 + s_el s 3 3 + 2 * (s_el s 1 2 + s_el s 2 3 + s_el s 1 3)) in
+  let GV := ((s_el c 1 1 + s_el c 2 2 + s_el c 3 3) - (s_el c 1 2 + s_el c 2 3 + s_el c 1 3)
+             + 3 * (s_el c 4 4 + s_el c 5 5 + s_el c 6 6)) / 15 in
+  let GR := 15 / (4 * (s_el s 1 1 + s_el s 2 2 + s_el s 3 3) - 4 * (s_el s 1 2 + s_el s 2 3 + s_el s 1 3)
+                  + 3 * (s_el s 4 4 + s_el s 5 5 + s_el s 6 6)) in
+  let K := (KV + KR) / 2 in let G := (GV + GR) / 2 in
+  exists vp vs vphi,
+    s_vrh_row c s rho = [KV; KR; K; GV; GR; G; vp; vs; vphi] /\
+    (0 <= K -> rho * vphi ^ 2 = K) /\
+    (0 <= G -> rho * vs ^ 2 = G) /\
+    (0 <= K + 4 / 3 * G -> rho * vp ^ 2 = K + 4 / 3 * G).
+Proof. exact vrh_rows_l. Qed.
+
+(** 5. unit factors from CODATA-2018 values *)
+Theorem unit_factors :
+  (forall x : R, s_to_ang3 x = x * (0.529177210903 * 0.529177210903 * 0.529177210903)) /\
+  (forall x : R, s_to_ev x = x * 13.605693122994) /\
+  (forall x : R, s_to_gpa x =
+      x * (13.605693122994 * 1.602176634e-19 / (0.529177210903e-10 * 0.529177210903e-10 * 0.529177210903e-10) / 1e9)) /\
+  (forall x : R, s_to_gcm3 x =
+      x * (1 / 6.02214076e23 / (0.529177210903e-8 * 0.529177210903e-8 * 0.529177210903e-8))) /\
+  (forall x : R, s_to_kms x = x) /\
+  (forall x : R, s_from_gpa (s_to_gpa x) = x /\ s_to_gpa (s_from_gpa x) = x) /\
+  14710.5078 < @s_gpa_factor R _ < 14710.5079 /\ 11.205872 < @s_gcm3_factor R _ < 11.205874 /\
+  0.14818471 < @s_bohr3 R _ < 0.14818472.
+Proof. exact unit_factors_l. Qed.
+
+(** non-vacuity of the hypotheses used above *)
+Example grid_hypotheses_satisfiable : (0:R) <> 1 /\ (0 < 1)%nat /\ (1 + 1 < 3)%nat /\ (2 <= 11)%nat.
+Proof. repeat split; try lia. lra. Qed.
+Example gram_det_hypothesis_satisfiable : forall ys : list R, s_gram_det (s_mom [0; 1; 2] ys) <> 0.
+Proof. intros ys. apply s_gram_det_three_distinct; lra. Qed.
+
+Print Assumptions columns_none_mode.
+Print Assumptions columns_volume_mode.
+Print Assumptions grad_exact_quadratic.
+Print Assumptions pexact_is_derivative.
+Print Assumptions columns_pressure_mode.
+Print Assumptions columns_pressure_mode_inputs.
+Print Assumptions columns_pressure_mode_refuted_before_fix.
+Print Assumptions fit2_normal_equations.
+Print Assumptions fit2_residual_moments.
+Print Assumptions fit2_exact.
+Print Assumptions fit2_exact_three.
+Print Assumptions gram_det_positive.
+Print Assumptions fit2_exact_distinct.
+Print Assumptions row_with_table.
+Print Assumptions row_without_table.
+Print Assumptions rows_of_table.
+Print Assumptions vrh_rows.
+Print Assumptions unit_factors.
